@@ -81,6 +81,11 @@ class AgentServer(asyncio.Protocol):
         except asyncio.CancelledError:
             self.logger.debug("Terminating by KeyboardInterrupt")
             raise
+        except Exception as e:
+            # connection lost or unusable (read/write error, undecodable data) - the agent leaves the game
+            self.logger.error(f"Connection with agent {addr} failed: {e}")
+            quit_message = Action(ActionType.QuitGame, parameters={}).to_json()
+            await self.actions_queue.put((addr, quit_message))
         finally:
             # Decrement the count of current connections
             self.current_connections -= 1
